@@ -246,10 +246,12 @@ static bool establish(OPN2_MIDIPlayer *dev, unsigned id, const Spec &sp)
     Rng r(sp.seed, 77, 0);
     OPNMIDIplay *p = P(dev);
     API("opn2_panic", opn2_panic(dev));
-    if(sx(dev, mk_roland(0x10 | id, 0x40, 0x00, 0x7F, 0x00)) != 1) return false;      // controllers, master volume, drum flags
+    // (a canonical, correctly addressed message that is refused here is a refuting event of its own, not a reason to set the case aside)
+    #define CANON(msg, what) do { Bytes m_ = (msg); if(sx(dev, m_) != 1) { if(g_case) g_case->violation(std::string("oracle:C19:valid-rejected:") + what + ":while-establishing-the-prior-state", vfmt("msg=%s devid=%u: library returned != 1", hexs(m_, 40).c_str(), id)); return false; } } while(0)
+    CANON(mk_roland(0x10 | id, 0x40, 0x00, 0x7F, 0x00), "gs-reset");      // controllers, master volume, drum flags
     for(int ch = 0; ch < 16; ch++) { API("opn2_rt_bankChange", opn2_rt_bankChange(dev, (uint8_t)ch, 0)); API("opn2_rt_patchChange", opn2_rt_patchChange(dev, (uint8_t)ch, 0)); }
-    if(sp.mode == MODE_GM && sx(dev, mk_gm(0x7F, true)) != 1) return false;
-    if(sp.mode == MODE_XG && sx(dev, mk_xg(0x10 | id, 0)) != 1) return false;
+    if(sp.mode == MODE_GM) CANON(mk_gm(0x7F, true), "gm-on");
+    if(sp.mode == MODE_XG) CANON(mk_xg(0x10 | id, 0), "xg-on");
     if((int)p->m_synthMode != sp.mode) return false;
     for(int ch = 0; ch < 16; ch++)
         if(p->m_midiChannels[(size_t)ch].is_xg_percussion)
